@@ -918,6 +918,12 @@ func (ex *Exec) appendOp(fr *Frame, c *ssa.CallCommon, args []Val, st *State, re
 		}
 		ex.vc.assume(Forall([]Bound{{"i?", SInt}}, Implies(InRange(IntLit(0), iv, n),
 			Eq(Select(Select(nh, rArr), At(res, Add(SlLen(s), iv))), srcAt))))
+		// the same, addressed by the position in the result (a trigger without arithmetic for goals about result[k])
+		if !srcIsString {
+			kv := Var("k?", SInt)
+			ex.vc.assume(ForallPat([]Bound{{"k?", SInt}}, Implies(And(Le(SlLen(s), kv), Lt(kv, newLen)),
+				Eq(Select(Select(nh, rArr), At(res, kv)), Select(Select(h, SlArr(src)), At(src, Sub(kv, SlLen(s)))))), [][]Term{{At(res, kv)}}))
+		}
 		// in place: everything outside the appended window keeps its value
 		ex.vc.assume(Implies(inPlace, Forall([]Bound{{"i?", SInt}}, Implies(Or(Lt(iv, Add(rOff, SlLen(s))), Ge(iv, Add(rOff, newLen))),
 			Eq(Select(Select(nh, rArr), iv), Select(Select(h, rArr), iv))))))
